@@ -1412,6 +1412,52 @@ def replay_model_dtype(args):
     return True, "held"
 
 
+def ob_float64_accuracy():
+    """float64 inputs under torch's OWN default dtype (float32 — the environment of a library user; the other obligations run with the
+    CLI's float64 default): a tensor the code allocates without a dtype must not drag the computation to single precision.  Regime where
+    it matters: small sampling effort (p0 close to 1, survival conditioning).  Single epoch against the closed form (1e-8 relative) and
+    refinement into 2, 4, 8 identical sub-epochs (1e-8)."""
+    def body():
+        import torchtree.evolution.bdsk as bd
+        from vt.runner import default_dtype
+        t = lambda v: torch.tensor(v, dtype=torch.float64)
+        n = 0
+        tips = [0.0, 0.0, 0.0, 0.0]
+        branching = [1.2, 2.0, 3.0]
+        x0 = 5.0
+        with default_dtype(torch.float32):
+            for rho in (1e-3, 1e-5, 1e-7):
+                for psi in (0.0, 1e-6):
+                    for surv in (True, False):
+                        lam, mu = 2.0, 1.0
+                        nh = t(tips + branching)
+                        one = float(bd.PiecewiseConstantBirthDeath(t([lam]), t([mu]), t([psi]), rho=t([rho]), origin=t([x0]), survival=surv).log_prob(nh))
+                        want = float(S.log_density(x0, branching, [], 4, lam, mu, psi, rho, survival=surv))
+                        n += 1
+                        if abs(one - want) > 1e-8 * max(1.0, abs(want)):
+                            raise Refuted("float64 inputs, default dtype float32, rho=%g psi=%g survival=%s: single-epoch log density %.12f, closed form %.12f"
+                                          % (rho, psi, surv, one, want), witness={"rho": rho, "psi": psi, "survival": surv},
+                                          replay={"kind": "custom", "contract": "C09", "func": "replay_float64_accuracy", "args": {}}, confirmed=True)
+                        for m in (2, 4, 8):
+                            split = float(bd.PiecewiseConstantBirthDeath(t([lam] * m), t([mu] * m), t([psi] * m), rho=t([0.0] * (m - 1) + [rho]), origin=t([x0]),
+                                                                           survival=surv).log_prob(nh).reshape(-1)[0])
+                            n += 1
+                            if abs(split - one) > 1e-8 * max(1.0, abs(one)):
+                                raise Refuted("float64 inputs, default dtype float32, rho=%g psi=%g survival=%s: %d identical sub-epochs give %.12f, one epoch %.12f"
+                                              % (rho, psi, surv, m, split, one), witness={"rho": rho, "psi": psi, "survival": surv, "pieces": m},
+                                              replay={"kind": "custom", "contract": "C09", "func": "replay_float64_accuracy", "args": {}}, confirmed=True)
+        return {"backend": "numeric", "cases": n, "statement": "%d float64 evaluations under the float32 default agree with the closed form / the unsplit epoch to 1e-8" % n}
+    return Ob("C09.float64_accuracy[default dtype float32]", "B", body, clause="single epoch ≡ constant-rate density and refinement invariance at double precision when the inputs are double", funcs=FUNCS)
+
+
+def replay_float64_accuracy(args):
+    try:
+        ob_float64_accuracy().fn()
+    except Refuted as e:
+        return False, e.detail
+    return True, "held"
+
+
 def replay_model_history(args):
     try:
         ob_model_history(args["kind"], args["depth"]).fn()
@@ -1537,6 +1583,7 @@ def obligations(tier, seed):
     trials = 10 if thorough else 3
     obs.append(Ob("C09.oracle.closed_form_vs_master_equations", "B", lambda: _oracle_vs_ode(40 if thorough else 12, seed),
                   clause="trusted base guard: literature formula ≡ master equations", funcs=FUNCS))
+    obs.append(ob_float64_accuracy())
     for kind_ in ("bdsk", "birth_death"):
         obs.append(ob_model_history(kind_, 2))
         obs.append(ob_model_history(kind_, 3))
